@@ -216,11 +216,13 @@ class SLE(Equilibrium, phases='ls'):
         else: T = thermal_condition.T
         if solubility is not None:
             solute_index = self._solute_index
+            imol = self._imol
+            self._liquid_mol = imol['l']
+            self._solid_mol = imol['s']
             self._mol_solute = (
                 self._solid_mol[solute_index] + self._liquid_mol[solute_index]
             )
-            self._index = slice(None)
-            self._update_solubility(solubility)
+            self._update_solubility(solubility, slice(None))
             if T_given:
                 thermal_condition.T = T
             elif H_given:
@@ -284,11 +286,12 @@ class SLE(Equilibrium, phases='ls'):
             else:
                 raise Exception('unknown')
     
-    def _update_solubility(self, x):
+    def _update_solubility(self, x, index=None):
         solute_index = self._solute_index
         liquid_mol = self._liquid_mol
         solid_mol = self._solid_mol
-        F_mol_liquid = liquid_mol[self._index].sum() - liquid_mol[solute_index]
+        if index is None: index = self._index
+        F_mol_liquid = liquid_mol[index].sum() - liquid_mol[solute_index]
         mol_solute = self._mol_solute
         x_max = mol_solute / (F_mol_liquid + mol_solute)
         if x < 0.:
